@@ -1,4 +1,5 @@
 import Babble.Props.C12
+import Babble.Model.Trust
 /-! # C14 — fast-sync trust
     A response is adopted only if some valid signature comes from a validator of a peer-set the node
     knows independently of the response: its configured peers, its genesis peers, its latest
@@ -22,6 +23,92 @@ theorem forged_set_refused (i : In) (h : i.trusted = 0) : accept i = false := by
 theorem trust_check_present :
     FFStep.trustedSigner ∈ Gen.coreCheckSteps ∧ Gen.ffTrustedSets = [TrustSrc.peers, TrustSrc.genesis, TrustSrc.validators] := by
   decide
+
+/-! ## Nodes in any state
+    The three sets a node checks signers against, over its whole life (`Babble.Trust`): whatever it
+    received before — join responses with any claimed peer list, refused fast-forward responses,
+    anything else — they only ever contain keys it has a reason to trust: configured keys, keys put
+    into a validator set by consensus, members of the frame of a response it accepted (which in
+    turn needed a signer it already knew). -/
+section anyState
+open Babble.Trust
+
+/-- the sets only contain keys the node has a reason to trust -/
+def Inv (s : St) : Prop :=
+  (∀ k ∈ s.peers, k ∈ s.reason) ∧ (∀ k ∈ s.genesis, k ∈ s.reason) ∧ (∀ k ∈ s.validators, k ∈ s.reason)
+
+theorem init_inv (c g : List Nat) : Inv (init c g) :=
+  ⟨fun _ hk => List.mem_append.mpr (Or.inl hk), fun _ hk => List.mem_append.mpr (Or.inr hk),
+   fun _ hk => List.mem_append.mpr (Or.inr hk)⟩
+
+/-- both sets replaced by `ns`, the reasons extended by `ns` -/
+theorem replaced_inv (s : St) (ns : List Nat) (h : Inv s) :
+    Inv { s with peers := ns, validators := ns, reason := s.reason ++ ns } :=
+  ⟨fun _ hk => List.mem_append.mpr (Or.inr hk), fun k hk => List.mem_append.mpr (Or.inl (h.2.1 k hk)),
+   fun _ hk => List.mem_append.mpr (Or.inr hk)⟩
+
+theorem step_inv (s : St) (op : Op) (h : Inv s) : Inv (step s op) := by
+  cases op with
+  | joinResponse a r c => exact h
+  | other => exact h
+  | receipt ns => exact replaced_inv s ns h
+  | fastForward r =>
+      simp only [step]
+      split
+      · exact replaced_inv s r.framePeers h
+      · exact h
+
+theorem run_inv (s : St) (ops : List Op) (h : Inv s) : Inv (run s ops) := by
+  induction ops generalizing s with
+  | nil => exact h
+  | cons o os ih => exact ih _ (step_inv s o h)
+
+/-- the reasons only grow through consensus receipts and accepted responses: a join response, a
+    refused response or any other message adds none -/
+theorem reason_unchanged (s : St) (op : Op)
+    (h : match op with | .receipt _ => False | .fastForward r => accept (ffIn s r) = false | _ => True) :
+    (step s op).reason = s.reason ∧ (step s op).peers = s.peers ∧ (step s op).validators = s.validators ∧
+      (step s op).genesis = s.genesis := by
+  cases op with
+  | joinResponse a r c => simp [step]
+  | other => simp [step]
+  | receipt ns => exact absurd h id
+  | fastForward r => simp only at h; simp [step, h]
+
+/-- **strangers_never_adopted**: in every state a node can reach from its configuration through any
+    sequence of join responses (accepted or not, with any claimed peer list), consensus receipts,
+    fast-forward responses and other messages, a fast-forward response whose valid signers are all
+    outside the keys the node has a reason to trust is refused and changes nothing — however
+    consistent it is internally, and whatever the join responses claimed. -/
+theorem strangers_never_adopted (c g : List Nat) (ops : List Op) (r : Resp)
+    (hstr : ∀ k ∈ r.validSigners, k ∉ (run (init c g) ops).reason) :
+    accept (ffIn (run (init c g) ops) r) = false ∧ step (run (init c g) ops) (.fastForward r) = run (init c g) ops := by
+  have hinv := run_inv (init c g) ops (init_inv c g)
+  generalize run (init c g) ops = s at hstr hinv ⊢
+  have h0 : (ffIn s r).trusted = 0 := by
+    simp only [ffIn, List.length_eq_zero_iff, List.filter_eq_nil_iff]
+    intro k hk hkn
+    have : k ∈ s.reason := by
+      simp only [knows, Bool.or_eq_true, List.contains_iff_mem] at hkn
+      rcases hkn with (h | h) | h
+      · exact hinv.1 k h
+      · exact hinv.2.1 k h
+      · exact hinv.2.2 k h
+    exact hstr k hk this
+  have hacc := forged_set_refused _ h0
+  exact ⟨hacc, by simp [step, hacc]⟩
+
+/-- non-vacuity (the seeded change C14b as a history): configured peers 1,2,3; the join request is
+    answered "accepted" with the strangers 7,8 and the joiner 9; then a consistent response signed by
+    7 and 8 arrives: refused. -/
+example : accept (ffIn (run (init [1, 2, 3] [1, 2, 3]) [.joinResponse true 0 [7, 8, 9]])
+    { framePeers := [7, 8, 9], validSigners := [7, 8], structOk := true, peersHashOk := true, frameHashOk := true }) = false := by
+  decide
+/-- ... while a response endorsed by a configured validator is accepted and extends the reasons -/
+example : (run (init [1, 2, 3] [1, 2, 3]) [.fastForward
+    { framePeers := [1, 2, 3, 4], validSigners := [1, 2, 4], structOk := true, peersHashOk := true, frameHashOk := true }]).validators
+    = [1, 2, 3, 4] := by decide
+end anyState
 
 /-- non-vacuity: the forged response of the defect report (one fresh key, one-member set, signed by
     itself) is refused; an honest one endorsed by a known validator is accepted -/
